@@ -89,8 +89,9 @@ def build(c):
 	chunked_wire = c['te'] is not None and c['te'].lower() == 'chunked' and c['ver'] == '1.1'
 	if c['te'] is not None and 'chunked' in c['te'].lower():
 		body = b''
-		for i in range(0, len(payload), 3):
-			body += b'%x\r\n%s\r\n' % (len(payload[i:i + 3]), payload[i:i + 3])
+		step = c.get('chunk', 3)
+		for i in range(0, len(payload), step):
+			body += b'%x\r\n%s\r\n' % (len(payload[i:i + step]), payload[i:i + step])
 		body += b'0\r\n' + b''.join(('%s: %s\r\n' % tuple(t)).encode() for t in c['tr_fields']) + b'\r\n'
 	else:
 		body = payload
@@ -137,6 +138,16 @@ def gen_cases(rng, tier):
 				s = b''.join(build(dict(m, kind=kind))[0] for m in (a, b))
 				cuts = [[], list(range(1, len(s)))] if tier == 'thorough' or rng.random() < .4 else [[]]
 				cases.append({'k': 'seq', 'kind': kind, 'msgs': [a, b], 'expect2': exp, 'cuts': cuts})
+	# boundary arithmetic: payloads of 2^k and 2^k +- 1 octets, chunks of exactly 2^j octets, with and without a (stale) Content-Length and a trailer
+	for n, L in enumerate([512, 4095, 4096, 8192, 8193, 16384] + ([1023, 1024, 4097, 8191, 32768, 65535, 65536, 65537] if tier == 'thorough' else [])):
+		pl = bytes((i * 7 + L) % 251 for i in range(L))
+		for kind in ('server', 'client'):
+			for te, cl, ann, tf in ((None, 'right', None, []), ('chunked', None, None, []), ('chunked', 'large', 'X-T', [('X-T', 'v')]), ('chunked', 'right', None, [])):
+				if (n + len(cl or '')) % 2 == (kind == 'server') and tier != 'thorough':
+					continue
+				c = dict(fm(te, cl, ann, tf, pl), kind=kind, chunk=(512, 1024, 4096, 8192)[n % 4])
+				c['cuts'] = [[], [len(build(c)[0]) - 1], list(range(4096, len(build(c)[0]), 4096))]
+				cases.append(c)
 	# direct validation of the integer and header-block sub-models
 	from harness.coqfmt import X
 	for _ in range(4000 if tier == 'thorough' else 700):
